@@ -1,8 +1,11 @@
 /-! Model M13 — the S3 lease (`/repo/s3/leaser.go`, `/repo/leaser.go`). Core Lean only.
 
 An object store holding at most one lease record under `lock.json`, answering
-conditional requests like S3; any number of clients (owner = client index, so
-owners are distinct); a global monotone clock that may advance between any two
+conditional requests like S3; any number of clients (instances), identified by
+their index; the `Owner` string an instance writes into the record is an
+arbitrary label `State.label c` (instances may share a label, e.g. the default
+`<hostname>:<pid>` of two containers, or both leave it empty) and plays no role
+in who *holds* the lease; a global monotone clock that may advance between any two
 steps; each S3 request is one atomic step of an interleaving semantics
 (`step`), local clock reads of `AcquireLease` are a step of their own.  -/
 namespace Litestream.Lease
@@ -143,9 +146,10 @@ structure Client where
   pc : Pc
 deriving DecidableEq, Repr
 
-/-- Ghost history of successful store mutations, newest first. -/
+/-- Ghost history of successful store mutations, newest first. `wrote w r`: instance `w` wrote
+record `r` (`none`: the pre-seeded record of an unknown earlier incarnation). -/
 inductive Ev
-  | wrote (r : Rec)
+  | wrote (w : Option Nat) (r : Rec)
   | deleted
 deriving DecidableEq, Repr
 
@@ -154,6 +158,8 @@ structure State where
   store : Option Rec
   clients : Nat → Client
   hist : List Ev
+  /-- the `Owner` string of each instance (constant; not necessarily injective) -/
+  label : Nat → Nat
 
 def State.setClient (s : State) (c : Nat) (cl : Client) : State :=
   { s with clients := fun i => if i = c then cl else s.clients i }
@@ -190,7 +196,7 @@ def stepAcquireGet (s : State) (c : Nat) : State × Out :=
 def stepAcquireDecide (s : State) (c : Nat) (ttl : Int) : State × Out :=
   match (s.clients c).pc with
   | .got existing =>
-    match acquireDecide s.now ttl c existing with
+    match acquireDecide s.now ttl (s.label c) existing with
     | .inl res => (s.setClient c { s.clients c with pc := .idle }, .did none (some res))
     | .inr (new, cond) => (s.setClient c { s.clients c with pc := .put new cond }, .did none none)
   | _ => (s, .disabled)
@@ -201,7 +207,7 @@ def stepAcquirePut (s : State) (c : Nat) (m : Missing) : State × Out :=
     let r := s3Put s.store cond new m
     match writeLeaseOutcome r.1 with
     | .ok =>
-      ({ s with store := r.2, hist := .wrote new :: s.hist }.setClient c
+      ({ s with store := r.2, hist := .wrote (some c) new :: s.hist }.setClient c
           { lease := some ⟨new, etagOf new⟩, active := true, pc := .idle },
         .did (some (.put cond new r.1)) (some (.ok ⟨new, etagOf new⟩)))
     | .leaseExists => (s.setClient c { s.clients c with pc := .reread }, .did (some (.put cond new r.1)) none)
@@ -221,12 +227,12 @@ def stepRenew (s : State) (c : Nat) (ttl : Int) (m : Missing) : State × Out :=
     match (s.clients c).lease with
     | none => (s, .did none (some .leaseRequired))
     | some l =>
-      let new : Rec := ⟨l.body.gen, s.now + ttl, c⟩
+      let new : Rec := ⟨l.body.gen, s.now + ttl, s.label c⟩
       let cond := writeLeaseCond (some l.etag)
       let r := s3Put s.store cond new m
       match r.1 with
       | .ok =>
-        ({ s with store := r.2, hist := .wrote new :: s.hist }.setClient c
+        ({ s with store := r.2, hist := .wrote (some c) new :: s.hist }.setClient c
             { lease := some ⟨new, etagOf new⟩, active := true, pc := .idle },
           .did (some (.put cond new r.1)) (some (renewResult new r.1)))
       | _ => (s, .did (some (.put cond new r.1)) (some (renewResult new r.1)))
@@ -263,11 +269,12 @@ def idleClient : Client := ⟨none, false, .idle⟩
 
 /-- Initial states: nobody holds anything; the store is empty or holds a record left behind by an
 earlier incarnation (pre-seeded). -/
-def initState (store : Option Rec) : State :=
+def initState (store : Option Rec) (label : Nat → Nat) : State :=
   { now := 0, store := store, clients := fun _ => idleClient,
-    hist := match store with | none => [] | some r => [.wrote r] }
+    hist := (match store with | none => [] | some r => [.wrote none r]), label := label }
 
-/-- "Client `c` holds an unexpired lease", from the client's own belief: an acquire/renew of its
+/-- "Instance `c` holds an unexpired lease" — a statement about the *instance* (client index), not
+about the owner string in the record — from the client's own belief: an acquire/renew of its
 own succeeded, it has not released since, and the lease it was handed is unexpired on the global
 clock (`IsExpired` is `now > exp`). Being *told* `ErrLeaseNotHeld` does not clear the belief:
 the mutual-exclusion theorem is stronger that way. -/
@@ -281,31 +288,32 @@ def holdsB (s : State) (c : Nat) : Bool :=
 
 /-! ### Generation order over the ghost history -/
 
-/-- Writes of the release-free segment at the head of a history (newest first). -/
-def segHead : List Ev → List Rec
-  | .wrote r :: rest => r :: segHead rest
+/-- Writes (writer instance, record) of the release-free segment at the head of a history (newest first). -/
+def segHead : List Ev → List (Option Nat × Rec)
+  | .wrote w r :: rest => (w, r) :: segHead rest
   | _ => []
 
-def allWrites : List Ev → List Rec
-  | .wrote r :: rest => r :: allWrites rest
+def allWrites : List Ev → List (Option Nat × Rec)
+  | .wrote w r :: rest => (w, r) :: allWrites rest
   | .deleted :: rest => allWrites rest
   | [] => []
 
-/-- `r2` (later) dominates every earlier write in `older`: generation never smaller, strictly
-larger when the owner differs. -/
-def dominates (r2 : Rec) (older : List Rec) : Bool :=
-  older.all fun r1 => decide (r1.gen ≤ r2.gen) && (r1.owner == r2.owner || decide (r1.gen < r2.gen))
+/-- The write `r2` by instance `w2` dominates every earlier write in `older`: generation never
+smaller, strictly larger when the earlier writer is a different (known) instance — whatever the
+owner labels are. -/
+def dominates (w2 : Option Nat) (r2 : Rec) (older : List (Option Nat × Rec)) : Bool :=
+  older.all fun p => decide (p.2.gen ≤ r2.gen) && (p.1 == w2 || p.1.isNone || decide (p.2.gen < r2.gen))
 
-/-- Generations strictly increase from one owner to the next *along takeovers with no release in between*. -/
+/-- Generations strictly increase from one instance to the next *along takeovers with no release in between*. -/
 def genPartial : List Ev → Bool
   | [] => true
-  | .wrote r2 :: rest => dominates r2 (segHead rest) && genPartial rest
+  | .wrote w2 r2 :: rest => dominates w2 r2 (segHead rest) && genPartial rest
   | .deleted :: rest => genPartial rest
 
-/-- Full strength: strictly increasing from one owner to the next, releases or not. -/
+/-- Full strength: strictly increasing from one instance to the next, releases or not. -/
 def genFull : List Ev → Bool
   | [] => true
-  | .wrote r2 :: rest => dominates r2 (allWrites rest) && genFull rest
+  | .wrote w2 r2 :: rest => dominates w2 r2 (allWrites rest) && genFull rest
   | .deleted :: rest => genFull rest
 
 end Litestream.Lease
